@@ -80,12 +80,24 @@ INT_DTYPES = ("int32", "int64")
 
 # ------------------------------------------------------------------ helpers
 
-def metric_obj(name):
+def metric_obj(name, reuse=False):
     if name in LIB_METRICS:
         return name
     if name == "hamming":
         return libdist.hamming
     if name in CALLABLE_METRICS:
+        if reuse:
+            # a metric that writes every result into one work vector and returns it (partial(kernel, out=scratch))
+            state = {"buf": None}
+
+            def g(X, y, _name=name):
+                d_ = R.ref_dist(_name, np.asarray(X), np.asarray(y))
+                if state["buf"] is None or state["buf"].shape != d_.shape:
+                    state["buf"] = np.empty_like(d_)
+                state["buf"][...] = d_
+                return state["buf"]
+            return g
+
         def f(X, y, _name=name):
             return R.ref_dist(_name, np.asarray(X), np.asarray(y))
         return f
@@ -160,12 +172,14 @@ def call_lib(case, n_clusters="case", cutoff="case", tri="case", entry="case"):
     cutoff = case["cutoff"] if cutoff == "case" else cutoff
     tri = case["tri"] if tri == "case" else tri
     entry = case["entry"] if entry == "case" else entry
-    metric = metric_obj(case["metric"])
+    metric = metric_obj(case["metric"], reuse=bool(case.get("reuse_buffer")))
     cap = _Cap(len(X) + 2)
     old = (LOGGER.level, LOGGER.propagate, logging.root.manager.disable)
     logging.disable(logging.NOTSET)      # vf.env silences INFO globally; this logger is captured, not printed
     LOGGER.addHandler(cap)
-    LOGGER.setLevel(logging.INFO)
+    # the verbosity of the library's logger is a property of the process, not of the computation: DEBUG (what the
+    # cluster app sets on rank 0, what pytest --log-level=DEBUG sets) must give the same clustering as INFO
+    LOGGER.setLevel(logging.DEBUG if case.get("debug_log") else logging.INFO)
     LOGGER.propagate = False
     try:
         if entry.startswith("class") and not tri:
@@ -492,7 +506,9 @@ def kc_case(draw, max_small=14, max_bulk=40, bulk_share=4, init_kinds=("none", "
             "entry": draw(st.sampled_from(["function", "function", "class", "class_set_params", "class_setattr_refit",
                                           "class_set_params_refit"])),
             "style": draw(st.sampled_from(["omit", "none"])),
-            "layout": draw(st.sampled_from(["C", "C", "C", "F", "T", "colstride"]))}
+            "layout": draw(st.sampled_from(["C", "C", "C", "F", "T", "colstride"])),
+            "debug_log": draw(st.sampled_from([False, False, True])),
+            "reuse_buffer": draw(st.sampled_from([False, False, True]))}
 
 
 # ------------------------------------------------------------------ clause bodies
